@@ -40,6 +40,7 @@ type Scenario struct {
 	Scoped    bool  `json:"scoped"`    // explicit syncs bring their own (scoped) block hook
 	Readers   bool  `json:"readers"`   // listeners are read by fast and slow readers during the run (otherwise: stalled, read at the end)
 	Seed      int64 `json:"seed"`
+	Patience  int   `json:"patience,omitempty"` // watchdog multiplier (confirmation run of a hang)
 }
 
 // StragglerRuns counts the runs in which the driver had to wait for a goroutine the scheduler had lost track of.
@@ -116,6 +117,9 @@ func Execute(sc Scenario, pubs []*chain.Pub) (log []gate.Event, key, detail stri
 	r := &run{sc: sc, s: gate.New(sc.Seed), pubs: pubs, dst: lsys.NewStore(), announced: make([]int, len(pubs)),
 		failed: map[[2]int]bool{}, faultsLeft: sc.Faults, frng: rand.New(rand.NewSource(sc.Seed ^ 0x5eed))}
 	s := r.s
+	if sc.Patience > 1 {
+		s.Watchdog *= time.Duration(sc.Patience)
+	}
 	passthrough := false
 	dagsync.VerifYield = func(point string, pid peer.ID, c cid.Cid) {
 		if passthrough {
@@ -616,6 +620,14 @@ func Run(args []string) *rep.Report {
 			use = []*chain.Pub{long}
 		}
 		log, key, detail := Execute(sc, use)
+		if key == "hang" || key == "goroutine-leak" || key == "api-after-close-blocks" {
+			// confirm before alarm: a real deadlock shows again, with four times the patience
+			sc2 := sc
+			sc2.Patience = 4
+			if _, key2, _ := Execute(sc2, use); key2 != key {
+				key, detail = "infra", "a "+key+" did not reproduce with a longer watchdog (busy machine): "+trim(detail, 300)
+			}
+		}
 		r.Eval(true)
 		if i%37 == 0 {
 			r.Sample(map[string]interface{}{"scenario": sc, "first_events": log[:min(len(log), 40)]})
